@@ -25,6 +25,8 @@ LEVEL_TEXT = ('Decides, for all paths and call sites: a successful rule body alw
 TECHNIQUE += '; per-parse-state rule (no action lookup or result is cached on an object that outlives the parse under a key that omits the semantics object)'
 LEVEL_TEXT += ' Added clause: nothing that depends on the semantics object is cached across parses on the engine or model.'
 TECHNIQUE += '; memo store gated by memoizable (= C04.R2)'
+TECHNIQUE += '; contract of semantics_call with falsy action results and falsy rule values'
+LEVEL_TEXT += " Added clause: whatever the action returns (0, '', [], None) is the rule value; without an action the value itself."
 LEVEL_NOTE = ('Trusted: call-graph resolution (unresolved value calls are assumed to reach actions); exception hierarchy '
               'read from tatsu/exceptions.py.')
 EXPLANATION = ('Static analysis of /repo sources, TatSu not imported. rule_call/semantics_call are executed abstractly with '
@@ -503,4 +505,51 @@ def r7_nomemo_gate(a, tier):
     return rep
 
 
-RULES = [r1_action_on_success, r2_lookup_order, r3_failure_conversion, r4_transparency, r5_decorators, r6_per_parse_state, r7_nomemo_gate]
+def r8_action_contract(a, tier):
+    from ..minieval import Raised
+    from ..modelinterp import Bound, Hook, ModelInterp, Stub
+    rep = RuleReport(
+        'C06.R8',
+        'semantics_call, interpreted on a stand-in engine: with an action, the action is called once with the rule\'s value, the rule\'s '
+        'parameters and keyword parameters, and WHATEVER it returns - also a falsy result: 0, "", [], (), False, None - is the value '
+        'handed back; without an action the rule\'s value itself is handed back (also when it is falsy)',
+        floor=12,
+    )
+    sc = a.p.func(f'{ENGINE}.semantics_call')
+
+    class Val(list):
+        """an identity-carrying value"""
+    node_values = [Val(['n']), Val([]), 0, '', (), False, None, 'text']
+    results = ['R', 0, '', [], (), False, None]
+    cases = [(nv, True, r) for nv in node_values[:3] for r in results] + [(nv, False, None) for nv in node_values]
+    for nv, with_action, result in cases:
+        calls: list = []
+
+        def boundcall(act, known, *args, **kw):
+            calls.append((args, kw))
+            return result
+        me = Stub(ENGINE, config=Obj(ignorecase=False, parseinfo=False), keywords=set(), pos=3,
+                  find_semantic_action=Hook(lambda n: (lambda *x, **k: None) if with_action else None), make_parseinfo=Hook(lambda *x, **k: 'PI'))
+        ri = Obj(is_name=False, name='r', params=('p1',), kwparams={'k': 'v'})
+        it = ModelInterp(a, {'boundcall': Hook(boundcall)})
+        try:
+            got = it.call_bound(Bound(me, sc), [ri, nv, 0], {})
+            raised = None
+        except Raised as r:
+            got, raised = None, r.cls_name
+        except Unsupported as e:
+            raise AnalysisError(f'C06.R8: cannot interpret semantics_call: {e}') from e
+        if with_action:
+            ok = raised is None and len(calls) == 1 and calls[0][0][0] is nv and calls[0][0][1:] == ('p1',) and calls[0][1].get('k') == 'v' \
+                and got == result and type(got) is type(result)
+        else:
+            ok = raised is None and not calls and got is nv
+        rep.add({'rule_value': repr(nv), 'action': with_action, 'action_returns': repr(result) if with_action else None, 'semantics_call_returns': repr(got),
+                 'raised': raised, 'ok': bool(ok)})
+        if not ok:
+            rep.fail(sc.qualname, f'action-contract:{nv!r}:{with_action}:{result!r}', f'semantics_call with the rule value {nv!r}, {"an action returning " + repr(result) if with_action else "no action"}: '
+                     f'returns {got!r} (raised {raised}; action calls {calls}); required: ' + (f'{result!r}, after one call action({nv!r}, "p1", k="v")' if with_action else 'the rule value itself'), sc.loc)
+    return rep
+
+
+RULES = [r1_action_on_success, r2_lookup_order, r3_failure_conversion, r4_transparency, r5_decorators, r6_per_parse_state, r7_nomemo_gate, r8_action_contract]
